@@ -49,6 +49,7 @@ type c16Origin struct {
 	key   *c14LogKey
 	tree  *vfref.Tree
 	known bool
+	head  int64 // size of the checkpoint both witnesses have recorded (and cosigned) for this origin through add-checkpoint
 }
 
 type c16Env struct {
@@ -88,6 +89,21 @@ func c16NewEnv(t *testing.T) *c16Env {
 			t.Fatalf("PullLogList rejected a valid list file: %v\n%s", err, list)
 		}
 		env.worlds[i] = wd
+		// the witness is not a blank slate: it has recorded, and cosigned, a head of every known log
+		for j, o := range env.origins {
+			if !o.known {
+				continue
+			}
+			o.head = []int64{1200, 777}[j%2]
+			text := vfref.FormatCheckpointText(o.name, o.head, o.tree.Root(o.head))
+			line, err := c14SigLine(o.key.signer, text)
+			if err != nil {
+				t.Fatalf("VERIF-INCONCLUSIVE: %v", err)
+			}
+			if resp := wd.post("/add-checkpoint", []byte("old 0\n\n"+text+"\n"+line)); resp.code != 200 {
+				t.Fatalf("VERIF-INCONCLUSIVE: add-checkpoint of the initial head of %s was answered %d %q", o.name, resp.code, resp.body)
+			}
+		}
 	}
 	mk := func(name, label string) note.Signer {
 		k, err := mldsa.NewPrivateKey(mldsa.MLDSA44(), c14Seed(label))
@@ -106,25 +122,26 @@ func c16NewEnv(t *testing.T) *c16Env {
 }
 
 type c16Req struct {
-	mirror  bool // which witness
-	o       *c16Origin
-	n       int64
-	cpKind  string // "own" tree, "othertree" root under this origin, "bogus" root
-	cpTree  *vfref.Tree
-	root    vfref.Hash
-	start   int64
-	end     int64
-	rngKind string
-	rngStr  string // "start end" as sent
-	hashK   string
-	hash    vfref.Hash
-	hashStr string
-	prfKind string
-	proof   []vfref.Hash
-	hdrKind string
-	ext     bool
-	sigs    []string // line kinds in order
-	body    []byte
+	mirror     bool // which witness
+	o          *c16Origin
+	n          int64
+	cpKind     string // "own" tree, "othertree" root under this origin, "bogus" root
+	cpTree     *vfref.Tree
+	root       vfref.Hash
+	start      int64
+	end        int64
+	rngKind    string
+	rngStr     string // "start end" as sent
+	hashK      string
+	attackHash vfref.Hash // rootattack: the root to offer when it is not the presented checkpoint's own
+	hash       vfref.Hash
+	hashStr    string
+	prfKind    string
+	proof      []vfref.Hash
+	hdrKind    string
+	ext        bool
+	sigs       []string // line kinds in order
+	body       []byte
 
 	defects  []string
 	blocked  bool            // an invalid line claims an own key before any genuine line by it
@@ -267,9 +284,27 @@ func (env *c16Env) gen(t *rapid.T) *c16Req {
 	r.start, r.end = c16ValidRange(t, "vr.", r.n)
 	r.rngStr = ""
 	if attack {
-		r.rngKind = c14Pick(t, "attackrng", []c14W{{"rightedge", 5}, {"shifted", 5}, {"valid", 1}})
+		r.rngKind = c14Pick(t, "attackrng", []c14W{{"rightedge", 5}, {"shifted", 5}, {"valid", 1}, {"recorded-head-beyond", 5}, {"recorded-head-prefix", 5}})
+		if (r.rngKind == "recorded-head-beyond" || r.rngKind == "recorded-head-prefix") && (r.o.head == 0 || r.cpTree != r.o.tree) {
+			r.rngKind = "rightedge"
+		}
 	}
 	switch r.rngKind {
+	case "recorded-head-beyond":
+		// an older (smaller) cosigned checkpoint is presented, the subtree asked for is the whole tree the witness has
+		// recorded since, with that tree's root
+		if r.n >= r.o.head {
+			r.n = int64(rapid.IntRange(1, int(r.o.head)-1).Draw(t, "olderN"))
+			r.root = r.cpTree.Root(r.n)
+		}
+		r.start, r.end = 0, r.o.head
+		r.attackHash = r.o.tree.Root(r.o.head)
+	case "recorded-head-prefix":
+		// the recorded head itself is presented, and its root is offered as the hash of a proper prefix
+		r.n = r.o.head
+		r.root = r.cpTree.Root(r.n)
+		r.start, r.end = 0, int64(rapid.IntRange(1, int(r.o.head)-1).Draw(t, "prefixEnd"))
+		r.attackHash = r.root
 	case "rightedge":
 		// [start, n) with start > 0: a valid subtree on the right edge of the tree
 		k := uint(rapid.IntRange(0, 12).Draw(t, "rek"))
@@ -374,6 +409,9 @@ func (env *c16Env) gen(t *rapid.T) *c16Req {
 		r.hash = c14Hash(fmt.Sprint("c16 random ", rapid.IntRange(0, 99).Draw(t, "hrnd")))
 	case "root":
 		r.hash = r.root
+		if r.attackHash != (vfref.Hash{}) {
+			r.hash = r.attackHash
+		}
 	case "flip":
 		bit := rapid.IntRange(0, 255).Draw(t, "hbit")
 		r.hash[bit/8] ^= 1 << (bit % 8)
